@@ -774,6 +774,13 @@ class Loops:
         if k == "rev":
             n = self.count_of(st, seq[1])
             return None if n is None else n - seq[2]
+        if k == "range":
+            return seq[2] - seq[1]          # built only with end >= start (see stdmodel.m_into_iter / counter_while_loop)
+        if k == "take":
+            return seq[2]                   # absolute end index, built only when it is below the inner count
+        if k == "take_while":
+            # an unknown number of leading elements (bounded by the inner count, see Loops.assume_count_bounds)
+            return Lin.atom(("cnt", ("take_while", self.seq_key(seq))))
         if k == "custom":
             return Lin.atom(("cnt", ("custom", self.val_key(seq[1]))))
         if k == "map_while":
@@ -802,7 +809,7 @@ class Loops:
 
     def seq_ident(self, seq):
         """key of the underlying indexed sequence (enumerate/copied do not change which element is k-th)"""
-        while seq[0] in ("enumerate", "copied"):
+        while seq[0] in ("enumerate", "copied", "map"):
             seq = seq[1]
         return self.seq_key(seq)
 
@@ -851,6 +858,21 @@ class Loops:
         if kind == "rev":
             n = self.count_of(st, seq[1])
             return self.elem_of(st, seq[1], n - 1 - k, e)
+        if kind == "range":
+            return [(st, IntV(seq[1] + k, seq[3]))]
+        if kind == "take":
+            return self.elem_of(st, seq[1], k, e)
+        if kind == "take_while":
+            out = []
+            for s, v in self.elem_of(st, seq[1], k, e):
+                arg = v
+                for s2, kd, r in I.apply_fn(s, seq[2], [arg], e or {}):
+                    if kd == "val" and isinstance(r, BoolV):
+                        for s3 in I.assume(s2, r.f):      # every element that is yielded satisfies the predicate
+                            out.append((s3, v))
+                    elif kd == "val":
+                        out.append((s2, v))
+            return out
         if kind == "enumerate":
             return [(s, TupV([IntV(k, "usize"), v])) for s, v in self.elem_of(st, seq[1], k, e)]
         if kind == "map":
@@ -967,6 +989,139 @@ class Loops:
             return None
         return call["args"][0], pat["subs"][0]["p"], b["then"]
 
+    def counter_while(self, e):
+        """`while i < E { body; i += 1 }` with i a local not otherwise assigned in the body, no `continue`, and E not
+        depending on anything the body assigns: (var id, bound expr, body statements without the increment, body block)"""
+        b = _strip(e["body"])
+        while b["k"] == "Block" and not b["b"]["stmts"] and b["b"]["expr"]:
+            b = _strip(b["b"]["expr"])
+        if b["k"] != "If" or not b.get("else"):
+            return None
+        c = _strip(b["cond"])
+        if c["k"] != "Binary" or c["op"] not in ("Lt", "Gt"):
+            return None
+        lhs, rhs = (_strip(c["lhs"]), c["rhs"]) if c["op"] == "Lt" else (_strip(c["rhs"]), c["lhs"])
+        if lhs["k"] != "Var":
+            return None
+        var = lhs["var"]
+        # else branch: a bare break of this loop
+        x = _strip(b["else"])
+        while x["k"] in ("Block", "NeverToAny"):
+            if x["k"] == "NeverToAny":
+                x = _strip(x["src"])
+                continue
+            st_, ex_ = x["b"]["stmts"], x["b"]["expr"]
+            if len(st_) == 1 and ex_ is None:
+                x = _strip(st_[0]["e"])
+            elif not st_ and ex_ is not None:
+                x = _strip(ex_)
+            else:
+                return None
+        if x["k"] != "Break" or x.get("value") is not None or x.get("label") != e.get("label"):
+            return None
+        then = _strip(b["then"])
+        if then["k"] != "Block":
+            return None
+        stmts, tail = list(then["b"]["stmts"]), then["b"]["expr"]
+        last = None
+        if tail is not None:
+            last, rest_stmts, rest_tail = _strip(tail), stmts, None
+        elif stmts and stmts[-1].get("k") == "Expr":
+            last, rest_stmts, rest_tail = _strip(stmts[-1]["e"]), stmts[:-1], None
+        else:
+            return None
+
+        def is_incr(x):
+            if x["k"] == "AssignOp" and x["op"] == "AddAssign":
+                l, r = _strip(x["lhs"]), _strip(x["rhs"])
+                return l["k"] == "Var" and l["var"] == var and r["k"] == "Lit" and r.get("kind") == "int" and int(r["v"]) == 1 and not r.get("neg")
+            if x["k"] == "Assign":
+                l, r = _strip(x["lhs"]), _strip(x["rhs"])
+                if l["k"] == "Var" and l["var"] == var and r["k"] == "Binary" and r["op"] == "Add":
+                    a, b2 = _strip(r["lhs"]), _strip(r["rhs"])
+                    return a["k"] == "Var" and a["var"] == var and b2["k"] == "Lit" and b2.get("kind") == "int" and int(b2["v"]) == 1
+            return False
+
+        if not is_incr(last):
+            return None
+        body = dict(then)
+        body["b"] = dict(then["b"])
+        body["b"]["stmts"] = rest_stmts
+        body["b"]["expr"] = rest_tail
+        # the body must not touch the counter, nor anything the bound depends on, nor `continue` this loop
+        assigned, consts = set(), set()
+        self._roots(body, assigned, consts)
+        used = set()
+
+        def vars_of(x):
+            if isinstance(x, dict):
+                if x.get("k") in ("Var", "Upvar"):
+                    used.add(x["var"])
+                for v in x.values():
+                    if isinstance(v, (dict, list)):
+                        vars_of(v)
+            elif isinstance(x, list):
+                for v in x:
+                    vars_of(v)
+
+        vars_of(rhs)
+        if var in assigned or (used & assigned) or var in used:
+            return None
+        bad = []
+
+        def scan(x):
+            if isinstance(x, dict):
+                if x.get("k") == "Continue" and x.get("label") == e.get("label"):
+                    bad.append(x)
+                if x.get("k") == "Closure":
+                    return
+                for v in x.values():
+                    if isinstance(v, (dict, list)):
+                        scan(v)
+            elif isinstance(x, list):
+                for v in x:
+                    scan(v)
+
+        scan(body)
+        if bad:
+            return None
+        return var, rhs, body
+
+    def counter_while_loop(self, e, st):
+        """a counting `while` loop as a traversal of the range [i0, E): outcomes, or None when the shape does not apply"""
+        I = self.I
+        m = self.counter_while(e)
+        if m is None:
+            return None
+        var, bound, body = m
+        key = (st.frame, var)
+        cur = st.env.get(key)
+        if not isinstance(cur, IntV):
+            return None
+        I.quiet += 1
+        try:
+            probe = I.ev(bound, st.clone())
+        finally:
+            I.quiet -= 1
+        if len(probe) != 1 or probe[0][1] != "val" or not isinstance(probe[0][2], IntV):
+            return None
+        outs = []
+        for s, kind, bv in I.ev(bound, st):
+            if kind != "val" or not isinstance(bv, IntV):
+                outs.append((s, kind, bv))
+                continue
+            i0, E, ty = cur.l, bv.l, cur.ty
+            for s1 in I.assume(s, flit(le(E, i0))):
+                outs.append((s1, "val", UNIT))            # the guard fails at once: nothing happens
+            for s1 in I.assume(s, flit(gt(E, i0))):
+                itv = IterV(("range", i0, E, ty))
+
+                def at_exit(sx, key=key, E=E, ty=ty):
+                    sx.env[key] = IntV(E, ty)
+
+                outs.extend(self._for_core(e, s1, itv, None, None, body, e.get("label"), bind_var=key, at_exit=at_exit))
+        return outs
+
     def while_let_loop(self, e, st):
         """outcomes when the loop is a traversal of a std sequence through an explicit `next()`, else None"""
         I = self.I
@@ -993,7 +1148,7 @@ class Loops:
             outs.extend(self._for_core(e, s, itv, r, elem_pat, body, e.get("label")))
         return outs
 
-    def _for_core(self, e, s, itv, ref, elem_pat, body, label_):
+    def _for_core(self, e, s, itv, ref, elem_pat, body, label_, bind_var=None, at_exit=None, elem_ty=None):
         I = self.I
         outs = []
         N = self.count_of(s, itv.seq)
@@ -1003,6 +1158,8 @@ class Loops:
         N = N - itv.pos
         if solver.entails_lit(s.pc, le(N, 0)):
             # no element: the body is not executed
+            if at_exit is not None:
+                at_exit(s)
             outs.append((s, "val", UNIT))
             return outs
         kname = I.fresh("k")
@@ -1018,10 +1175,15 @@ class Loops:
                 if ref is not None:
                     # `for x in it.by_ref()`: inside the body the underlying iterator has consumed element k
                     I.write_loc(s1, ref.key, ref.path, IterV(seq, pos0 + K + 1))
-                if isinstance(v, Opaque) and isinstance(elem_pat.get("t"), int):
-                    # an abstract sequence (custom iterator): its k-th item is a symbolic value of the item type
-                    v = I.symbolic(elem_pat["t"], (), (self.seq_key(seq), (pos0 + K).key()))
-                I.bind(s1, elem_pat, v)
+                if bind_var is not None:
+                    if isinstance(v, Opaque) and isinstance(elem_ty, int):
+                        v = I.symbolic(elem_ty, (), (self.seq_key(seq), (pos0 + K).key()))
+                    s1.env[bind_var] = v          # a counter variable / the element of an analyser-bodied traversal
+                else:
+                    if isinstance(v, Opaque) and isinstance(elem_pat.get("t"), int):
+                        # an abstract sequence (custom iterator): its k-th item is a symbolic value of the item type
+                        v = I.symbolic(elem_pat["t"], (), (self.seq_key(seq), (pos0 + K).key()))
+                    I.bind(s1, elem_pat, v)
                 s1.env[("ghost-elem", kname)] = v
                 for a_, i0_, tinfo_, _ in ctx.get("tile_accs", ()):
                     sl_ = self._first_slice(v)
@@ -1030,7 +1192,7 @@ class Loops:
                 res.extend(self.instantiate_forall(s1, seq, pos0 + K))
             return res
 
-        ctx = {"k": katom, "N": N, "bind": bind, "body": body, "label": label_, "seq": seq, "ref": ref, "pos0": pos0}
+        ctx = {"k": katom, "N": N, "bind": bind, "body": body, "label": label_, "seq": seq, "ref": ref, "pos0": pos0, "at_exit": at_exit}
         fake = {"k": "Loop", "label": label_, "body": body, "sp": e["sp"], "t": e["t"]}
         outs.extend(self.loop(fake, s, for_ctx=ctx))
         return outs
@@ -1073,6 +1235,8 @@ class Loops:
         for c in invs:
             s.pc.append(c)
         s.pc.append(le(0, N))
+        if ctx.get("at_exit") is not None:
+            ctx["at_exit"](s)
         for a_, i0_, tinfo_, exact_ in ctx.get("tile_accs", ()):
             s.pc.append(le(Lin.atom(a_) - i0_, Lin.atom(("len", tinfo_[0]))))
             if exact_:
@@ -1098,6 +1262,12 @@ class Loops:
                 conds.append(new)
             if conds and all(conds):
                 s.pc.append(("forall", self.seq_ident(ctx["seq"]), katom, conds))
+                if ctx["seq"][0] == "range" and ctx["seq"][1].is_const() and ctx["seq"][1].c == 0:
+                    # a counting loop from 0 that visits element k of a collection in iteration k, for every element:
+                    # the same facts hold of that collection's elements (later traversals of it instantiate them)
+                    for sq in self._indexed_collections(conds, katom):
+                        if solver.entails_lit(s.pc, eq(N, Lin.atom(("cnt", sq)))):
+                            s.pc.append(("forall", ("coll", ("c", sq)), katom, conds))
             # writes: generalise each body write over k
             per_back = []
             for sb in backs:
@@ -1121,6 +1291,14 @@ class Loops:
                 sb, ws = per_back[0]
                 for b, wl in ws.items():
                     for w in wl:
+                        # the same constant byte(s) written at A + k*w for k in [0, N): the fill of [A, A + N*w)
+                        width = w.end - w.start
+                        vals = w.payload if w.kind == "bytes" else ([w.payload] if w.kind == "fill" else None)
+                        if vals and width.is_const() and width.c > 0 and all(isinstance(x, IntV) and x.l.is_const() and x.l.c == vals[0].l.c for x in vals):
+                            A = subst_deep(w.start, {katom: lin(0)})
+                            if w.start - A == Lin.atom(katom, width.c):
+                                I.write(s, b, Write(A, A + N.scale(width.c), "fill", vals[0], span=w.span, fn=w.fn))
+                                continue
                         I.write(s, b, Write(w.start, w.end, w.kind, w.payload, q=(katom, N), span=w.span, fn=w.fn))
             else:
                 # a structured node: for every k in [0,N), on the path whose condition holds of element k, these writes
@@ -1146,6 +1324,26 @@ class Loops:
         if not solver.feasible(s.pc):
             return []
         return [(s, "val", UNIT)]
+
+    def _indexed_collections(self, conds, katom):
+        """names of the collections whose element number `katom` the literals talk about (and no other element)"""
+        kk = Lin.atom(katom).key()
+        seqs, other = set(), []
+
+        def rec(x):
+            if isinstance(x, tuple):
+                if len(x) >= 4 and x[0] == "elem" and isinstance(x[1], str):
+                    (seqs if x[2] == kk else other).append(x[1]) if False else (seqs.add(x[1]) if x[2] == kk else other.append(x[1]))
+                for y in x:
+                    rec(y)
+            elif isinstance(x, Lin):
+                rec(x.key())
+            elif isinstance(x, list):
+                for y in x:
+                    rec(y)
+
+        rec(conds)
+        return [q for q in seqs if q not in other]
 
     def _mentions_elem_only(self, l, katom, int_syms):
         ats = atoms_deep(l[1])
@@ -1199,6 +1397,11 @@ class Loops:
         # the same function of the element as an earlier traversal of this sequence?  (pointwise equality,
         # decided on the back-edge states, which carry the element facts)
         seqk0 = self.seq_ident(ctx["seq"])
+        if ctx["seq"][0] == "range" and ctx["seq"][1].is_const() and ctx["seq"][1].c == 0:
+            # a counting loop from 0 over all elements of one collection: the sum is a prefix sum over that collection
+            sqs = self._indexed_collections([[("eq", d)] for _, d in cases] + [c for c, _ in cases], katom)
+            if len(sqs) == 1 and solver.entails_lit(base.pc, eq(ctx["N"], Lin.atom(("cnt", sqs[0])))):
+                seqk0 = ("coll", ("c", sqs[0]))
         for ofid, of in self.psfuns.items():
             if ofid == fid:
                 continue
@@ -1230,8 +1433,8 @@ class Loops:
                 cases = [([(l[0], subst_deep(l[1], m)) for l in oc_], subst_deep(od_, m)) for oc_, od_ in of["cases"]]
                 break
         if fid not in self.psfuns:
-            self.psfuns[fid] = {"k": katom, "cases": cases, "seq": self.seq_ident(ctx["seq"])}
-        seqk = self.seq_ident(ctx["seq"])
+            self.psfuns[fid] = {"k": katom, "cases": cases, "seq": seqk0}
+        seqk = seqk0
 
         def form(K):
             if K.is_const() and K.c == 0:
@@ -1292,6 +1495,51 @@ class Loops:
         if not solver.feasible(s.pc):
             return []
         return self.elem_of(s, it.seq, it.pos + K, e)
+
+    def py_for(self, e, st, it, init, step, elem_ty=None):
+        """A traversal whose body is given by the analyser instead of by source code (fold, sum, try_fold ...):
+        `step(state, acc, elem)` returns outcomes (state, "val", new acc) or (state, "out", final value).  It goes through
+        the ordinary for-loop machinery (closed forms, prefix sums, quantified facts, early exits, tiling).
+        Returns [(state, acc after the last element or the early-out value, exhausted?)] or None."""
+        I = self.I
+        if isinstance(it, RefV):
+            it = I.read_loc(st, it.key, it.path)
+        if isinstance(it, StructV):
+            it = IterV(("custom", it))
+        if not isinstance(it, IterV) or self.count_of(st, it.seq) is None:
+            return None
+        n = next(I.counter)
+        acc_key, elem_key = (st.frame, f"__acc{n}"), (st.frame, f"__elem{n}")
+        label = f"pyfor{n}"
+        st = st.clone()
+        st.env[acc_key] = init
+
+        def fn(s):
+            outs = []
+            for s2, kind, v in step(s, s.env[acc_key], s.env.get(elem_key)):
+                if kind == "val":
+                    s2.env[acc_key] = v
+                    outs.append((s2, "val", UNIT))
+                elif kind == "out":
+                    outs.append((s2, "brk", (label, StructV("<pyfor>", "Out", {"0": v}))))
+                else:
+                    outs.append((s2, kind, v))
+            return outs
+
+        body = {"k": "PyBody", "t": e.get("t"), "sp": e.get("sp"), "fn": fn,
+                "scan": {"k": "Assign", "lhs": {"k": "Var", "var": acc_key[1], "name": "acc"}, "rhs": {"k": "Lit", "kind": "int", "v": "0", "neg": False}}}
+        res = []
+        for s, kind, v in self._for_core(e, st, it, None, None, body, label, bind_var=elem_key, elem_ty=elem_ty):
+            if kind != "val":
+                res.append((s, kind, v, None))
+                continue
+            if isinstance(v, StructV) and v.adt == "<pyfor>":
+                res.append((s, "val", v.fields["0"], False))
+            else:
+                res.append((s, "val", s.env.get(acc_key), True))
+            s.env.pop(acc_key, None)
+            s.env.pop(elem_key, None)
+        return res
 
     def _elem_with_base(self, st, seq, k, e):
         """(state, element of the underlying sequence, element after the map/copied adaptors)"""
